@@ -280,6 +280,15 @@ class Analysis:
                 return ("slice", sid)
             if k["c"] == "fn":
                 return ("fn", k["callee"])
+            if k.get("promoted"):
+                # `&Enum::Variant` of a fieldless workspace enum (what `flag == Enum::Variant` compares with)
+                pv = self.b.prog.promoted_value(op)
+                if pv is not None:
+                    adt = self.b.prog.adts.get(pv[0])
+                    if adt is not None and adt.get("kind") == "enum" and all(not v.get("fields") for v in adt["variants"]):
+                        key = "promoted:%s::%s" % (pv[0].split("::")[-1], pv[1])
+                        st.store[key] = ("adt", pv[0].split("::")[-1], pv[1], (), ())
+                        return ("ref", key, False)
             return None
         return None
 
@@ -981,6 +990,18 @@ class Analyzer(Analysis):
                 o.detail = cat[2] if len(cat) > 2 else "partial function"
             self.finish_ob(o)
         # ---- value modelling
+        if c is not None and not handled and c.get("name") in ("eq", "ne") and len(vals) == 2 and \
+                name.endswith(("as std::cmp::PartialEq>::eq", "as std::cmp::PartialEq>::ne")):
+            # derived equality of a fieldless enum whose two sides are known variants (a mode flag written as an enum)
+            sides = []
+            for v in vals:
+                tv = st.store.get(v[1]) if v is not None and v[0] == "ref" else None
+                sides.append(tv if tv is not None and tv[0] == "adt" and not tv[3] else None)
+            if sides[0] is not None and sides[1] is not None and sides[0][1] == sides[1][1]:
+                ia, ib = self.variant_index(sides[0][1], sides[0][2]), self.variant_index(sides[1][1], sides[1][2])
+                if ia is not None and ib is not None:
+                    result = ("bool", "Eq" if c["name"] == "eq" else "Ne", Lin.const(ia), Lin.const(ib))
+                    handled = True
         if c is not None and not handled:
             if LEN_LIKE.search(name) and vals:
                 ln = self.slice_len_of_val(st, vals[0], self.op_ty(args[0]))
@@ -1664,6 +1685,11 @@ class Analyzer(Analysis):
                 for s_, _k in (d[2] - d[3]).t:
                     self.add_cmp(s2, "Eq", Lin.sym(s_), Lin.const(self.force_sym[s_]))
                 out.append((hit[0] if hit else t["otherwise"], s2))
+            elif d is not None and d[0] == "bool" and (d[2] - d[3]).is_const():
+                val = (d[2] - d[3]).c
+                truth = {"Eq": val == 0, "Ne": val != 0, "Lt": val < 0, "Le": val <= 0, "Gt": val > 0, "Ge": val >= 0}.get(d[1])
+                hit = [tgt for v, tgt in arms if (v != 0) == bool(truth)]
+                out.append((hit[0] if hit else t["otherwise"], st.copy()))
             elif d is not None and d[0] == "bool":
                 for v, tgt in arms:
                     s2 = st.copy()
@@ -2079,7 +2105,40 @@ class Analyzer(Analysis):
         for l, cs in assigned.items():
             if l in names and l > b.argc and b.local_ty(l)["k"] == "bool" and all(cs) and len(cs) >= 2:
                 out.append(l)
-        return sorted(out)[:3]
+        # a two-or-more-variant fieldless enum used the same way: only ever assigned constant variants
+        defs_all = {}
+        for bl in b.blocks:
+            for s in bl["stmts"]:
+                if s["s"] == "assign" and not s["pl"]["p"]:
+                    defs_all.setdefault(s["pl"]["l"], []).append(s["rv"])
+            t = bl["term"]
+            if t["t"] == "call" and not t["dest"]["p"]:
+                defs_all.setdefault(t["dest"]["l"], []).append(None)
+
+        def const_variant(rv, depth=3):
+            if rv is None:
+                return False
+            if rv["k"] == "agg" and rv.get("ak") == "adt" and not rv["ops"]:
+                return True
+            if rv["k"] == "use" and rv["op"].get("o") in ("copy", "move") and not rv["op"]["pl"]["p"] and depth > 0:
+                ds = defs_all.get(rv["op"]["pl"]["l"], [])
+                return len(ds) == 1 and const_variant(ds[0], depth - 1)
+            return False
+        for l, rvs in defs_all.items():
+            if l not in names or l <= b.argc or len(rvs) < 2:
+                continue
+            ty = b.local_ty(l)
+            adt = b.prog.adts.get(ty.get("name", "")) if ty["k"] == "adt" else None
+            if adt is None or adt.get("kind") != "enum" or adt.get("crate") not in ("simple_dns", "simple_mdns") or \
+                    any(v.get("fields") for v in adt["variants"]):
+                continue
+            if all(const_variant(rv) for rv in rvs):
+                out.append(l)
+        # source-level flags multiply the partitions (kept to three); the flag of an inlined helper is non-zero only between the
+        # helper's return and the caller's test of it, so any number of them adds partitions only locally
+        helper = [l for l in out if str(names.get(l, "")).startswith("inlined_helper_failed")]
+        src = [l for l in out if l not in helper]
+        return sorted(sorted(src)[:3] + sorted(helper)[:16])
 
     def variant_index(self, short, variant):
         """discriminant of `variant` of the workspace enum whose path ends in `short` (None when ambiguous / unknown)"""
@@ -2099,10 +2158,20 @@ class Analyzer(Analysis):
 
     def mode_key(self, st):
         key = []
+        transient = getattr(self, "_transient_modes", None)
+        if transient is None:
+            nm = self.b.local_names()
+            transient = self._transient_modes = set(l for l in self.modes if str(nm.get(l, "")).startswith("inlined_helper_failed"))
         for l in self.modes:
             v = st.store.get("_%d" % l)
+            if v is None and l in transient:
+                # a helper's partition flag is written before it is read; "not yet written" and "cleared" are the same partition
+                key.append(0)
+                continue
             if v is not None and v[0] == "lin" and v[1].is_const():
                 key.append(v[1].c)
+            elif v is not None and v[0] == "adt" and not v[3]:
+                key.append(self.variant_index(v[1], v[2]))
             else:
                 key.append(None)
         return tuple(key)
@@ -2192,6 +2261,7 @@ class Analyzer(Analysis):
                 converged = True
                 break
         self.converged = converged
+        self.node_edges = set(edge.keys())
         self.final = True
         self.obligations = []
         self.events = []
@@ -2239,6 +2309,23 @@ class Analyzer(Analysis):
                     o.ok = False
                     o.detail = "analysis did not converge for this body"
         return self
+
+    def blocks_reachable(self, start_bi, avoid=()):
+        """blocks reachable from block `start_bi` in the partitioned graph (every partition of it), not entering `avoid`:
+        unlike plain CFG reachability this does not walk from a helper's error return into the caller's success arm"""
+        succ = {}
+        for (a, d) in self.node_edges:
+            succ.setdefault(a, []).append(d)
+        nodes = set(a for a, _ in self.node_edges) | set(d for _, d in self.node_edges)
+        stack = [n for n in nodes if n[0] == start_bi]
+        seen = set()
+        while stack:
+            n = stack.pop()
+            if n in seen or n[0] in avoid:
+                continue
+            seen.add(n)
+            stack.extend(succ.get(n, []))
+        return set(n[0] for n in seen)
 
     def _back_edges(self, n0, edge):
         """edges of the (partitioned) node graph that close a cycle, by depth-first search from the entry"""
